@@ -74,3 +74,17 @@ SPECS["C07"] = dict(
              params=dict(quick=dict(toklen=2, keylen=2), thorough=dict(toklen=3, keylen=3)), witnesses=["invalid", "missing", "perturbed-expiry-in-the-past"]),
     ],
 )
+
+SPECS["C19"] = dict(
+    level="model_checking",
+    outside="cookie / form-body / Basic-auth token placement (net/http form parsing is not interpreted); secrets longer than 42 bytes; more than 2 tokens per request context; the legacy controller saltAuthToken path (see DESIGN)",
+    assumptions=["HMAC-SHA1 modelled as an uninterpreted function with collision-freeness on occurring applications",
+                 "stub backend for APIClientAuthorizationCurrent answers 401 / other error / an authorization owned by the remote / by another cluster"],
+    runs=[
+        dict(name="salt", pkg="sdk/go/auth", harness=["auth/c19_salt.go"], entry="GosymH_C19_salt",
+             witnesses=["salted", "already-salted-own", "already-salted-foreign"]),
+        dict(name="opaque", pkg="sdk/go/auth", harness=["auth/c19_salt.go"], entry="GosymH_C19_opaque", witnesses=["non-v2"]),
+        dict(name="provider", pkg="lib/controller/federation", pam=True, harness=["federation/c19_provider.go"], entry="GosymH_C19_provider",
+             params=dict(quick=dict(tokens=1), thorough=dict(tokens=2)), witnesses=["salted", "legacy-salted", "error", "done"]),
+    ],
+)
